@@ -60,7 +60,12 @@ Theorem C07_nothing_handled_unless_communicating : forall s e, good s = true -> 
 Proof. exact nothing_handled_unless_communicating. Qed.
 Print Assumptions C07_nothing_handled_unless_communicating.
 
+(* a request that the application denies (on_commack_requested() = 1) is answered with COMMACK 1 and changes nothing (D41) *)
+Theorem C07_denied_request_does_not_establish : forall s, gcomm_step s (YInS1F13 false) = (s, if is s communication_WAIT_CRA || is s communication_COMMUNICATING then [YSendS1F14 1] else []).
+Proof. intro s. cbn [gcomm_step]. destruct (is s communication_WAIT_CRA); [reflexivity|]. destruct (is s communication_COMMUNICATING); reflexivity. Qed.
+Print Assumptions C07_denied_request_does_not_establish.
+
 Example C07_example :
-  snd (gcomm_run gc0 [YEnable; YLinkUp; YT3; YInOther true true; YDelay; YInS1F14 1 true; YDelay; YInS1F14 0 true; YInOther true true; YLinkDown; YLinkUp; YInS1F13]) =
+  snd (gcomm_run gc0 [YEnable; YLinkUp; YT3; YInOther true true; YDelay; YInS1F14 1 true; YDelay; YInS1F14 0 true; YInOther true true; YLinkDown; YLinkUp; YInS1F13 true]) =
   [[]; [YSendS1F13]; []; []; [YSendS1F13]; []; [YSendS1F13]; []; [YHandled]; []; [YSendS1F13]; [YSendS1F14 0]].
 Proof. vm_compute. reflexivity. Qed.
